@@ -59,7 +59,11 @@ func Abs(ctx *expr.Context, input system.Collection, args ...expr.Expression) (s
 		}
 		// Absolution number
 		res := math.Abs(f)
-		return system.Collection{system.MustParseQuantity(fmt.Sprintf("%f", res), quantity[1])}, nil
+		unit := "" // a Quantity with the empty unit prints as its number alone
+		if len(quantity) > 1 {
+			unit = quantity[1]
+		}
+		return system.Collection{system.MustParseQuantity(fmt.Sprintf("%f", res), unit)}, nil
 	}
 	return nil, errors.New("input is not a number")
 }
@@ -186,8 +190,8 @@ func Log(ctx *expr.Context, input system.Collection, args ...expr.Expression) (s
 	// Log number to base
 	res := logToBase(number, base)
 	// Validating NaN case
-	if math.IsNaN(res) {
-		return system.Collection{}, nil
+	if math.IsNaN(res) || math.IsInf(res, 0) {
+		return system.Collection{}, nil // a number beyond the float64 range has no representable logarithm here
 	}
 	// Type conversion to system.Decimal
 	result := decimal.NewFromFloat(res)
@@ -331,6 +335,9 @@ func Sqrt(ctx *expr.Context, input system.Collection, args ...expr.Expression) (
 	}
 	// Ceiling number
 	value := math.Sqrt(number)
+	if math.IsInf(value, 0) || math.IsNaN(value) {
+		return system.Collection{}, nil // a number beyond the float64 range has no representable root here
+	}
 	result := decimal.NewFromFloat(value)
 	return system.Collection{system.Decimal(result)}, nil
 }
